@@ -113,8 +113,75 @@ def run(ids, runs, tier):
       sh('git -C /repo worktree prune')
 
 
+def collect_keep(sid, wt, prop, what):
+  """Store a property-PRESERVING change (false-alarm test) under preserving/<id>/."""
+  d = os.path.join(V, 'preserving', sid)
+  os.makedirs(d, exist_ok=True)
+  diff = sh('git -C %s diff' % wt).stdout
+  assert diff.strip(), 'no change in worktree'
+  open(os.path.join(d, 'patch.diff'), 'w').write(diff)
+  if os.path.exists(os.path.join(wt, 'demo.py')):
+    shutil.copy(os.path.join(wt, 'demo.py'), os.path.join(d, 'demo.py'))
+  rc1, out1 = demo(wt)
+  suite = sh('%s/tools/baseline_check.py %s' % (V, wt)).stdout.strip().splitlines()[0]
+  meta = {'id': sid, 'kind': 'property-preserving change', 'property': prop, 'what': what,
+          'files': sorted(set(l[6:] for l in diff.splitlines() if l.startswith('+++ b/'))),
+          'lines_changed': sum(1 for l in diff.splitlines() if l[:1] in '+-' and l[:3] not in ('+++', '---')),
+          'confirmed': {'demo_exit': rc1, 'demo_output': out1, 'pinned_suite_with_change': suite},
+          'kept': rc1 == 0 and 'missing=0' in suite}
+  json.dump(meta, open(os.path.join(d, 'meta.json'), 'w'), indent=1)
+  print(sid, 'kept' if meta['kept'] else 'REJECTED', rc1, suite)
+
+
+def run_keep(ids, runs):
+  base = os.path.join(V, 'preserving')
+  for sid in sorted(os.listdir(base)):
+    if ids and sid not in ids:
+      continue
+    d = os.path.join(base, sid)
+    meta = json.load(open(os.path.join(d, 'meta.json')))
+    if not meta.get('kept'):
+      continue
+    wt = tempfile.mkdtemp(prefix='aeq-keep-')
+    os.rmdir(wt)
+    try:
+      sh('git -C /repo worktree add -q --detach %s HEAD' % wt)
+      r = sh('git -C %s apply %s' % (wt, os.path.join(d, 'patch.diff')))
+      if r.returncode:
+        print(sid, 'patch does not apply:', r.stdout[-300:])
+        continue
+      results = meta.setdefault('check_results', {})
+      for prop in ['C09', 'C11', 'C12', 'C14', 'C16']:
+        outdir = tempfile.mkdtemp(prefix='aeq-keep-out-')
+        env = dict(os.environ, AEQ_REPO=wt, AEQ_OUT_DIR=outdir)
+        if runs:
+          env['VERIF_RUNS'] = str(runs)
+        c = sh('%s/check %s' % (V, prop), env=env)
+        lines = c.stdout.splitlines()
+        res = {'exit': c.returncode, 'runs': runs or 'default',
+               'sweep': [l for l in lines if l.startswith('sweep:')],
+               'violations': [l for l in lines if l.startswith('VIOLATION')],
+               'classes': [l.strip()[:400] for l in lines if l.strip().startswith('class=')],
+               'harness': [l[:400] for l in lines if l.startswith('HARNESS-ERROR')]}
+        res['verdict'] = 'clean' if c.returncode == 0 else ('ALARM' if c.returncode == 1 else 'harness-error')
+        results[prop] = res
+        shutil.rmtree(outdir, ignore_errors=True)
+        print('%-12s %-4s %-14s %s' % (sid, prop, res['verdict'], (res['classes'] or res['harness'] or [''])[0][:150]), flush=True)
+      json.dump(meta, open(os.path.join(d, 'meta.json'), 'w'), indent=1)
+    finally:
+      sh('git -C /repo worktree remove --force %s' % wt)
+      shutil.rmtree(wt, ignore_errors=True)
+      sh('git -C /repo worktree prune')
+
+
 if __name__ == '__main__':
-  if sys.argv[1] == 'collect':
+  if sys.argv[1] == 'collect-keep':
+    collect_keep(*sys.argv[2:6])
+  elif sys.argv[1] == 'run-keep':
+    ids = [a for a in sys.argv[2:] if not a.startswith('--')]
+    runs = next((int(a.split('=')[1]) for a in sys.argv if a.startswith('--runs=')), None)
+    run_keep(ids, runs)
+  elif sys.argv[1] == 'collect':
     collect(*sys.argv[2:6])
   else:
     ids = [a for a in sys.argv[2:] if not a.startswith('--')]
